@@ -1,6 +1,6 @@
 from __future__ import annotations
 
-from .hashed_data import T
+from .hashed_data import T, LiveDomain
 from .symbol_graph import SymbolGraph
 from .utils import is_iterable
 
@@ -116,6 +116,18 @@ def _extract_variables_and_expression(
 DomainType = Union[Iterable, None]
 
 
+class SymbolGraphDomain(LiveDomain):
+    """
+    The instances of a symbol type (and of its subclasses) that exist at the time of iteration.
+    """
+
+    def __init__(self, type_: Type):
+        self.type_ = type_
+
+    def __iter__(self):
+        return iter(SymbolGraph().get_instances_of_type(self.type_))
+
+
 def let(
     type_: Type[T],
     domain: DomainType,
@@ -165,7 +177,7 @@ def _get_domain_source_from_domain_and_type_values(
     if is_iterable(domain):
         domain = filter(lambda x: isinstance(x, type_), domain)
     elif domain is None and issubclass(type_, Symbol):
-        domain = SymbolGraph().get_instances_of_type(type_)
+        domain = SymbolGraphDomain(type_)
     return From(domain)
 
 
